@@ -461,7 +461,7 @@ func (av AnyValue) AsString() (string, error) {
 
 	var val string
 	valueOf := reflect.ValueOf(av.Val)
-	switch valueOf.Type().Kind() {
+	switch valueOf.Kind() {
 	case reflect.String:
 		val = valueOf.String()
 	case reflect.Uint, reflect.Uint8, reflect.Uint16, reflect.Uint32, reflect.Uint64:
